@@ -235,7 +235,20 @@ func literalStream(c *corpus, r *rng, tier string) *inputSet {
 		}
 		s.add("bodies-random", x)
 	}
-	// all 223 q-quote delimiters are exercised through dedicated inputs (full strings, as-is)
+	for _, x := range qDelimiterInputs() {
+		s.add("q-delimiters", x)
+	}
+	// the fixture corpus too (whole inputs)
+	for _, x := range c.sql {
+		s.add("corpus", x)
+	}
+	return s
+}
+
+// qDelimiterInputs: all 223 q-quote delimiters (full inputs, as-is) with bodies containing the
+// delimiter, its closing pair and quotes.
+func qDelimiterInputs() []string {
+	var out []string
 	for d := 33; d < 256; d++ {
 		cl := byte(d)
 		switch d {
@@ -249,15 +262,10 @@ func literalStream(c *corpus, r *rng, tier string) *inputSet {
 			cl = '>'
 		}
 		for _, body := range []string{"", "a", "a" + bstr(cl), bstr(cl) + "a" + bstr(cl) + "'", bstr(byte(d)) + "'" + bstr(cl) + "'b", "a'b" + bstr(cl) + "' or 1=1", bstr(cl) + bstr(cl) + "'"} {
-			s.add("q-delimiters", "q'"+bstr(byte(d))+body)
-			s.add("q-delimiters", "1 nQ'"+bstr(byte(d))+body)
+			out = append(out, "q'"+bstr(byte(d))+body, "1 nQ'"+bstr(byte(d))+body)
 		}
 	}
-	// the fixture corpus too (whole inputs)
-	for _, x := range c.sql {
-		s.add("corpus", x)
-	}
-	return s
+	return out
 }
 
 // ---------------- C19: decoder inputs ----------------
